@@ -76,6 +76,10 @@ type c18World struct {
 	ops     [][]byte
 	parked  bool
 	full    bool
+
+	closerRunning bool         // a 'J' CloseIdleConnections has not returned yet
+	scratch       map[int]bool // connections that were idle when it started (its snapshot), by id
+	slowClose     bool
 }
 
 // recoverActor turns a panic inside fasthttp on an actor's goroutine into a violation instead of a crash.
@@ -93,7 +97,7 @@ func (w *c18World) violate(key, detail string) {
 }
 
 func newC18World(max, mode int, fifo bool) *c18World {
-	w := &c18World{max: max, mode: mode, open: map[int]bool{}, busy: map[int]int{}, wcActor: map[*fasthttp.VerifWantConn]int{}}
+	w := &c18World{max: max, mode: mode, open: map[int]bool{}, busy: map[int]int{}, wcActor: map[*fasthttp.VerifWantConn]int{}, scratch: map[int]bool{}}
 	hc := &fasthttp.HostClient{Addr: "pool.test:80", MaxConns: max, MaxIdleConnDuration: c18IdleDur}
 	hc.ConnPoolStrategy = fasthttp.LIFO
 	if fifo {
@@ -275,6 +279,61 @@ func (w *c18World) apply(code byte, n int) bool {
 	case 'I':
 		w.ops = append(w.ops, []byte{'I', 0})
 		hc.CloseIdleConnections()
+	case 'J':
+		// CloseIdleConnections on its own goroutine with slow Closes: every connection that is idle now blocks the
+		// closer inside its Close (after the Close took effect) until a 'U', so pool traffic can be interleaved with
+		// the closer's walk over its snapshot of the idle list
+		if w.closerRunning || hc.IdleConnsCount() == 0 {
+			return false
+		}
+		w.mu.Lock()
+		for id := range w.open {
+			c := w.conns[id]
+			inUse := false
+			for _, h := range w.held {
+				if h.conn == c {
+					inUse = true
+				}
+			}
+			if _, ok := w.busy[id]; ok {
+				inUse = true
+			}
+			if !inUse {
+				c.holdClose()
+				w.scratch[id] = true
+			}
+		}
+		w.mu.Unlock()
+		w.closerRunning = true
+		w.ops = append(w.ops, []byte{'J', 0})
+		go func() {
+			defer func() {
+				if e := recover(); e != nil {
+					w.mu.Lock()
+					w.violate("impl-panic", fmt.Sprintf("CloseIdleConnections: panic inside fasthttp: %v", e))
+					w.closerRunning = false
+					w.mu.Unlock()
+				}
+			}()
+			hc.CloseIdleConnections()
+			w.mu.Lock()
+			w.closerRunning = false
+			w.mu.Unlock()
+		}()
+	case 'U':
+		var blocked *memConn
+		w.mu.Lock()
+		for _, c := range w.conns {
+			if c.closeBlocked() {
+				blocked = c
+			}
+		}
+		w.mu.Unlock()
+		if blocked == nil {
+			return false
+		}
+		w.ops = append(w.ops, []byte{'U', 0})
+		blocked.releaseClose()
 	default:
 		return false
 	}
@@ -364,9 +423,16 @@ func (w *c18World) observe() {
 		w.violate("count-mismatch", fmt.Sprintf("ConnsCount() = %d but %d connections are open and %d are being dialled", cc, len(w.open), dl))
 	}
 	// every open connection is in exactly one place: idle, held by an actor, or carrying a request at the server
-	if idle := hc.IdleConnsCount(); idle+len(w.held)+len(w.busy) != len(w.open) {
-		w.violate("double-lend", fmt.Sprintf("%d idle + %d held by actors + %d with a request at the server != %d open connections (a connection is in two places, or lost)",
-			idle, len(w.held), len(w.busy), len(w.open)))
+	// (… or waiting in the snapshot of a CloseIdleConnections that is walking over it)
+	inScratch := 0
+	for id := range w.scratch {
+		if w.open[id] {
+			inScratch++
+		}
+	}
+	if idle := hc.IdleConnsCount(); idle+len(w.held)+len(w.busy)+inScratch != len(w.open) {
+		w.violate("double-lend", fmt.Sprintf("%d idle + %d held by actors + %d with a request at the server + %d in the snapshot of a running CloseIdleConnections != %d open connections (a connection is in two places, or lost)",
+			idle, len(w.held), len(w.busy), inScratch, len(w.open)))
 	}
 	if cc >= w.max {
 		w.full = true
@@ -392,6 +458,9 @@ func (w *c18World) teardown() string {
 			return "z=0"
 		}
 		progress := false
+		for w.apply('U', 0) {
+			progress = true
+		}
 		for len(w.pendingDials()) > 0 {
 			w.apply('D', 0)
 			progress = true
@@ -442,13 +511,13 @@ func (w *c18World) teardown() string {
 	return z
 }
 
-var c18Codes = []byte("AAAAAQQQDDDDFRRRCCSSSTKI")
+var c18Codes = []byte("AAAAAQQQDDDDFRRRCCSSSTKIJUU")
 
 func c18Seq(a [][]byte) *Case {
 	if len(a) < 2 || len(a[0]) < 3 {
 		return nil
 	}
-	max := int(a[0][0])%3 + 1
+	max := int(a[0][0])%4 + 1
 	mode := int(a[0][1]) % 3
 	fifo := a[0][2]%2 == 1
 	var w *c18World
@@ -900,7 +969,7 @@ func init() {
 	Register(&Prop{
 		ID: "C18",
 		Rule: "seq: random sequences of 4..30 gated ops (AcquireConn / request through Do / dial ok / dial fail / ReleaseConn / CloseConn / server answers keep-alive|close / " +
-			"short timeout passes / MaxIdleConnDuration passes / CloseIdleConnections) on a real HostClient in virtual time, MaxConns 1..3, without / long / short MaxConnWaitTimeout, LIFO/FIFO, " +
+			"short timeout passes / MaxIdleConnDuration passes / CloseIdleConnections / CloseIdleConnections on its own goroutine with slow Closes, stepped through its snapshot while other ops come in between) on a real HostClient in virtual time, MaxConns 1..4, without / long / short MaxConnWaitTimeout, LIFO/FIFO, " +
 			"followed by a teardown that closes everything; thorough adds all sequences of <=4 ops (<=5 for MaxConns 1 with a long MaxConnWaitTimeout) over a 10-op alphabet for MaxConns 1..2 x 3 wait modes; " +
 			"queue: random push/pop/clearFront/pop-until-waiting sequences on wantConnQueue; chaos: 4..8 concurrent actors with random delays and dial faults; " +
 			"race: MaxConns 1, 6..15 rounds of a holder releasing/closing its connection at the very instant the waiter's timer fires (the scheduler decides delivery vs timeout); " +
@@ -931,7 +1000,7 @@ func init() {
 				nSeq, nQ, nChaos = 12000, 30000, 1500
 			}
 			for i := 0; i < nSeq; i++ {
-				cfg := []byte{byte(r.Intn(3)), byte(r.Intn(3)), byte(r.Intn(2))}
+				cfg := []byte{byte(r.Intn(4)), byte(r.Intn(3)), byte(r.Intn(2))}
 				if r.Chance(60) && cfg[1] == 0 {
 					cfg[1] = byte(1 + r.Intn(2))
 				}
@@ -939,6 +1008,27 @@ func init() {
 				ops := make([]byte, 0, 2*m)
 				for j := 0; j < m; j++ {
 					ops = append(ops, c18Codes[r.Intn(len(c18Codes))], byte(r.Intn(8)))
+				}
+				emit("seq", cfg, ops)
+			}
+			// CloseIdleConnections running concurrently with pool traffic: open 2..4 connections, make at least two of
+			// them idle, start the slow closer, then releases / acquires / closes / dial results mixed with the steps of
+			// the closer
+			for i := 0; i < nSeq/3; i++ {
+				k := 2 + r.Intn(3)
+				cfg := []byte{byte(k - 1 + r.Intn(5-k)), byte(r.Intn(3)), byte(r.Intn(2))}
+				var ops []byte
+				for j := 0; j < k; j++ {
+					ops = append(ops, 'A', 0, 'D', 0)
+				}
+				nIdle := 2 + r.Intn(k-1)
+				for j := 0; j < nIdle; j++ {
+					ops = append(ops, 'R', byte(r.Intn(4)))
+				}
+				ops = append(ops, 'J', 0)
+				mix := []byte("RRRRAADDCUUUSQ")
+				for j, m := 0, 2+r.Intn(8); j < m; j++ {
+					ops = append(ops, mix[r.Intn(len(mix))], byte(r.Intn(8)))
 				}
 				emit("seq", cfg, ops)
 			}
